@@ -186,6 +186,11 @@ def gen_coq_project():
 def ensure_model(force=False):
     """build all .vo files, extract model.ml and compile the OCaml driver"""
     with Lock("model"):
+        # translator: the table-like parts of /repo's CURRENT sources become coq/SrcTables.v on every run
+        import srctables
+        _changed, _err = srctables.regenerate(REPO, COQ)
+        if _err:
+            sys.stderr.write("[translate] /repo tables could not be translated: %s\n" % _err)
         srcs = [os.path.join(COQ, f) for f in coq_sources() if f != "Extract.v"] + \
                tree_files(os.path.join(COQ, "extract.d")) + \
                tree_files(os.path.join(VERIF, "ocaml"), {".ml"})
